@@ -400,8 +400,8 @@ def discharge(vcs, program: Program, qual: str, extra_axioms=()) -> List[Obligat
             g = z3.simplify(goal)
             if z3.is_true(g):
                 continue
-            r = prover.check_valid(axioms + hyps, goal, rlimit=PYVC_RLIMIT, cvc5_timeout_s=10)
-            tsum += r.time_s
+            r, t_extra = prove_vc(axioms, hyps, goal)
+            tsum += t_extra
             if r.proved:
                 if r.backend != "z3": backend = r.backend
                 continue
@@ -413,6 +413,67 @@ def discharge(vcs, program: Program, qual: str, extra_axioms=()) -> List[Obligat
             if status == FAILED_NO_INPUT: break
         out.append(Obligation(name, qual, "vc", status, backend, tsum, program.where(qual), detail, prover.RLIMIT))
     return out
+
+
+def prove_vc(axioms, hyps, goal):
+    """(Result, solver time): the full VC first; if undecided, the same goal under the path condition alone and
+    then with the type facts relevant to it (sound: fewer hypotheses).  The full set can drown the instantiation
+    engine in type invariants the goal does not touch."""
+    axioms = list(axioms) + S.lifted_axioms_for(list(hyps) + [goal])
+    r = prover.check_valid(axioms + list(hyps), goal, rlimit=PYVC_RLIMIT, cvc5_timeout_s=10)
+    t = r.time_s
+    if r.proved or r.status == "sat":
+        return r, t
+    nf = getattr(hyps, "nfacts", 0)
+    pcs = list(hyps[nf:])
+    tiers = [pcs] if nf else []
+    for depth in (0, 1, 2):
+        tiers.append(pcs + relevant_hyps(list(hyps[:nf]), z3.And(goal, *pcs[1:]) if len(pcs) > 1 else goal, depth))
+    for sub in tiers:
+        if len(sub) == len(hyps): continue
+        r2 = prover.check_valid(axioms + sub, goal, rlimit=PYVC_RLIMIT // 2, use_cvc5=False)
+        t += r2.time_s
+        if r2.proved:
+            return r2, t
+    return r, t
+
+
+def _symbols(e, cache):
+    """names of the uninterpreted constants / functions occurring in e"""
+    key = e.get_id()
+    if key in cache: return cache[key]
+    out = set()
+    todo, seen = [e], set()
+    while todo:
+        x = todo.pop()
+        if x.get_id() in seen: continue
+        seen.add(x.get_id())
+        if z3.is_quantifier(x):
+            todo.append(x.body()); continue
+        if z3.is_app(x):
+            d = x.decl()
+            if d.kind() == z3.Z3_OP_UNINTERPRETED:
+                out.add(d.name())
+            todo.extend(x.children())
+    cache[key] = out
+    return out
+
+
+def relevant_hyps(hyps, goal, depth):
+    """Hypotheses connected to the goal through shared symbols, `depth` rounds of closure."""
+    cache = {}
+    syms = set(_symbols(goal, cache))
+    hs = [(h, _symbols(h, cache)) for h in hyps]
+    chosen = [False] * len(hs)
+    for _ in range(depth + 1):
+        new = set()
+        for i, (h, sy) in enumerate(hs):
+            if not chosen[i] and (sy & syms or not sy):
+                chosen[i] = True
+                new |= sy
+        if not new - syms: break
+        syms |= new
+    return [h for (h, _), c in zip(hs, chosen) if c]
 
 
 def _verify_one(args):
